@@ -105,6 +105,7 @@ static int extra_op(const char *op) {
 }
 
 #include "c20f_ref_impl.h"
+#include "c20f_ref_mod.h"
 
 int main(int argc, char **argv) {
     static char big[70000], copy[70000];
@@ -122,7 +123,9 @@ int main(int argc, char **argv) {
         strncpy(op, toks[0], 63); op[63] = 0;
         if (extra_op(op)) continue;
         itok = 1;
-        if (extra_op2(op)) continue;          /* OP() / IER() of c20_wrap.c refer to a variable called op */
+        if (extra_op2(op)) continue;
+        itok = 1;
+        if (extra_op3(op)) continue;          /* OP() / IER() of c20_wrap.c refer to a variable called op */
         {
             FILE *one = fmemopen(big, strlen(big), "r");
             if (!one) return 3;
